@@ -112,13 +112,13 @@ func (m *RWMutex) Lock() {
 		m.real.Lock()
 		return
 	}
-	for {
-		m.w.Lock()
-		if m.nreaders() == 0 {
-			return
-		}
-		m.w.Unlock() // readers inside: let them finish (each Lock/Unlock is a scheduling point)
-	}
+	// blocking, not spinning: the thread is not enabled while somebody writes or reads, so the
+	// scheduler has to run the others (a spin loop of scheduling points would never end under a
+	// non-preemptive default)
+	yield(opWLock, unsafe.Pointer(m))
+	m.w.acquire()
+	raceAcquire(unsafe.Pointer(&m.w))
+	raceAcquire(unsafe.Pointer(&m.readers))
 }
 
 func (m *RWMutex) Unlock() {
@@ -126,7 +126,9 @@ func (m *RWMutex) Unlock() {
 		m.real.Unlock()
 		return
 	}
-	m.w.Unlock()
+	yield(opUnlock, unsafe.Pointer(m))
+	raceRelease(unsafe.Pointer(&m.w))
+	m.w.release()
 }
 
 func (m *RWMutex) RLock() {
@@ -134,10 +136,9 @@ func (m *RWMutex) RLock() {
 		m.real.RLock()
 		return
 	}
-	m.w.Lock()
+	yield(opRLock, unsafe.Pointer(m))
 	m.addReader(1)
-	raceAcquire(unsafe.Pointer(&m.readers))
-	m.w.Unlock()
+	raceAcquire(unsafe.Pointer(&m.w))
 }
 
 func (m *RWMutex) RUnlock() {
